@@ -1,6 +1,6 @@
 """Rule fragments shared between properties."""
 from .. import astq
-from ..facts import AnalysisBroken
+from ..facts import AnalysisBroken, walk
 
 STDIO_GLOBALS = {"stderr", "stdout", "stdin"}
 
@@ -183,3 +183,62 @@ def executed_flag(opstep):
                 if i is not None and i.get("k") == "mcall" and i.get("n") == "all_true" and "vfExec" in astq.estr(i.get("obj")):
                     return d["n"]
     raise AnalysisBroken("the operation step has no local initialised from vfExec.all_true() (the executed/unexecuted flag)")
+
+
+def opcode_predicate_set(prog, func, cond, is_opcode):
+    """The set of opcode enumerator names (qualified as the case labels are) for which `cond` holds, when cond is a pure
+    predicate of the opcode variable - written inline (==, ||, ranges) or as a call of a repository helper taking the opcode
+    (evaluated for each of the 256 values by G-FD / G-SYM). None if cond is not such a predicate."""
+    from .. import fd, symx
+    fb = prog.facts
+    en = [e for e in fb.enums if e["name"].endswith("opcodetype")]
+    if not en:
+        raise AnalysisBroken("enum opcodetype not found")
+    byval = {}
+    for c in en[0]["consts"]:
+        byval.setdefault(c["v"], []).append(c["n"])
+    # every variable mentioned must be the opcode
+    names = set()
+    helper = None
+    for x in walk(cond):
+        if x["k"] == "ref" and x.get("dk") in ("local", "parm", "global"):
+            if not is_opcode(x):
+                return None
+            names.add(x["n"])
+        elif x["k"] == "mem":
+            if not is_opcode(x):
+                return None
+        elif x["k"] in ("call",) and x is cond:
+            fs = [f for f in prog.resolve(x["cid"]) if f.body is not None] if x.get("cid") and not x.get("ext") else []
+            if len(fs) != 1 or len(x["args"]) != 1 or len(fs[0].params) != 1 or not is_opcode(x["args"][0]):
+                return None
+            helper = fs[0]
+        elif x["k"] in ("call", "mcall"):
+            return None
+    if not names and helper is None:
+        return None
+    true_vals = []
+    if helper is not None:
+        X = symx.Explorer(prog, inline=lambda fn, n: fn.file == helper.file)
+        for v in range(256):
+            try:
+                outs = [o for o in X.explore(helper, params={helper.params[0]["n"]: symx.C(v)}) if o.status == "ret"]
+            except symx.Unsupported:
+                return None
+            rs = {o.ret for o in outs}
+            if len(rs) != 1 or not symx.is_const(list(rs)[0]):
+                return None
+            if list(rs)[0][1]:
+                true_vals.append(v)
+    else:
+        for v in range(256):
+            try:
+                if fd.ev(cond, {n: v for n in names}):
+                    true_vals.append(v)
+            except fd.Unknown:
+                return None
+    out = set()
+    for v in true_vals:
+        for n in byval.get(v, ["0x%02x" % v]):
+            out.add(n)
+    return out
